@@ -72,9 +72,15 @@ def run_call(rec, rnd, case, ncalls):
                 mode = rnd.random()
                 det = {"call_index": k, "start_cycle": c0, "arg": a}
                 if mode < 0.4:
-                    res = await circ.meth.call(ctx, a=a)
+                    low_level = rnd.random() < 0.35  # the documented low-level pair call_init + call_do must behave like call
+                    if low_level:
+                        circ.meth.call_init(ctx, a=a)
+                        res = await circ.meth.call_do(ctx)
+                        rec.count("call_init_call_do")
+                    else:
+                        res = await circ.meth.call(ctx, a=a)
                     after, now = ctx.get(dut.execs), ctx.get(dut.cyc)
-                    det.update(result_cycle=int(res.cyc), now=now, executions=[before, after])
+                    det.update(result_cycle=int(res.cyc), now=now, executions=[before, after], helper="call_init+call_do" if low_level else "call")
                     rec.check("call:performs_exactly_one_call", after == before + 1, case=case, detail=det)
                     rec.check("call:result_is_from_the_cycle_in_which_the_call_succeeded", res.cyc == now - 1 and pattern[res.cyc], case=case, detail=det)
                     rec.check("call:waits_exactly_until_first_ready_cycle", not any(pattern[c0:res.cyc]), case=case, detail=det)
@@ -84,6 +90,24 @@ def run_call(rec, rnd, case, ncalls):
                     if res.cyc > c0:
                         rec.count("call_waited")
                     rec.nontrivial(f"call|waited{min(int(res.cyc) - c0, 5)}")
+                elif mode < 0.5:
+                    # call_init, then poll call_result every cycle until the call went through, then disable
+                    circ.meth.call_init(ctx, a=a)
+                    polls = []
+                    while True:
+                        cnow = ctx.get(dut.cyc)
+                        r = await circ.meth.call_result(ctx)
+                        polls.append((cnow, r is not None))
+                        rec.check("call_result:none_exactly_when_the_method_did_not_run_in_that_cycle", (r is None) != pattern[cnow], case=case, detail=dict(det, polls=polls[-6:]))
+                        if r is not None or len(polls) > 60:
+                            break
+                    circ.meth.disable(ctx)
+                    after = ctx.get(dut.execs)
+                    det.update(polls=polls[-6:], executions=[before, after])
+                    rec.check("call_result:one_call_performed_and_its_result_returned", r is not None and after == before + 1 and r.cyc == polls[-1][0] and r.a == a, case=case, detail=det)
+                    rec.count("call_result_polls", len(polls))
+                    rec.count("helper_calls")
+                    rec.nontrivial(f"call_result|polls{min(len(polls), 5)}")
                 elif mode < 0.8:
                     res = await circ.meth.call_try(ctx, a=a)
                     after = ctx.get(dut.execs)
@@ -101,7 +125,8 @@ def run_call(rec, rnd, case, ncalls):
                 else:
                     # two methods in one cycle through CallTrigger
                     b = rnd.randrange(256)
-                    r1, r2 = await CallTrigger(ctx).call(circ.meth, a=a).call(circ.other, b=b)
+                    r1, sampled_cycle, r2 = await CallTrigger(ctx).call(circ.meth, a=a).sample(dut.cyc).call(circ.other, b=b)
+                    rec.check("call_trigger:sampled_values_are_returned_in_declaration_order_from_that_edge", sampled_cycle == c0, case=case, detail=dict(det, sampled=int(sampled_cycle)))
                     after, after2 = ctx.get(dut.execs), ctx.get(dut.execs2)
                     det.update(results=[None if r1 is None else int(r1.cyc), None if r2 is None else int(r2.cyc)], ready=[pattern[c0], pattern2[c0]])
                     rec.check("call_trigger:each_result_none_exactly_when_that_method_did_not_run",
@@ -237,10 +262,10 @@ def run_shard(spec, rec):
 
 
 EVALUATIONS = "helper_calls"
-RULE = ("TestbenchIO.call / call_try / CallTrigger with two methods against a DUT whose method readiness follows a random per-cycle pattern (p in {0.1,0.5,0.9}), "
+RULE = ("TestbenchIO.call / call_init+call_do / call_init+call_result polling / call_try / CallTrigger with two methods and a sampled value against a DUT whose method readiness follows a random per-cycle pattern (p in {0.1,0.5,0.9}), "
         "returns its cycle counter and counts executions in hardware; MethodMock with random enable (p in {0.2,0.6,1}) and delay in {0, 1ns, 3ns, 200ns} mocking "
         "a method called by a transaction with random activity, effects logged and compared with the hardware execution counter; distinct non-trivial "
         "case = (helper, waited cycles / outcome / mock parameters)")
 ASSUMPTIONS = ["the readiness process and the caller are separate testbenches synchronised on the clock"]
-MINIMA = {"quick": {"call": 400, "call_try": 400, "call_try_none": 100, "call_waited": 100, "call_trigger": 150, "mock_calls": 2000, "glitch_cycles": 300, "distinct": 15},
+MINIMA = {"quick": {"call": 400, "call_try": 400, "call_try_none": 100, "call_waited": 100, "call_trigger": 150, "call_init_call_do": 100, "call_result_polls": 200, "mock_calls": 2000, "glitch_cycles": 300, "distinct": 15},
           "thorough": {"call": 20000, "mock_calls": 100000, "distinct": 20}}
